@@ -1,5 +1,6 @@
 import MsiProofs.Props.C05
 import MsiProofs.Lemmas.SortedInv
+import MsiProofs.Lemmas.SortUpd
 /-
 C05 over histories — in every table the rows the state reads are in strictly ascending key order
 (hence have pairwise distinct keys), and every insert or delete on any table, accepted or refused,
@@ -18,5 +19,15 @@ def history_sorted := @MsiProofs.SortedInv.history_sorted
 def keys_distinct := @MsiProofs.SortedInv.keys_distinct
 /-- rows read from a stream always fit their columns (type and width of every cell) -/
 def readRows_rowOk := @MsiProofs.RowsOk.readRows_rowOk
+
+
+/-- `sortByKey` really sorts; with the duplicate check the order is strictly ascending -/
+def sortByKey_sorted := @MsiProofs.SortUpd.sortByKey_sorted
+def strict_of_sorted_nodup := @MsiProofs.SortUpd.strict_of_sorted_nodup
+/-- a successful update — re-sorting when a key column is assigned, keeping the order otherwise —
+keeps every table in ascending key order -/
+def update_sorted := @MsiProofs.SortUpd.update_sorted
+/-- **every history of inserts, updates and deletes keeps every table's keys unique and ascending** -/
+def dml_history_sorted := @MsiProofs.SortUpd.history_sorted
 
 end MsiProofs.C05
